@@ -71,13 +71,62 @@ def directed_checkout_edits(mode):
     finally:
         shutil.rmtree(base, ignore_errors=True)
 
+def directed_scm_set_edits(mode, kind='incremental-differs-from-clean'):
+    """the SET of SCMs of one checkout changes: an SCM is removed, moved to another directory, switched off by `if`,
+    added again.  The source workspace (and everything built from it) must equal a clean build of the final recipe."""
+    import subprocess, tempfile, shutil
+    base = tempfile.mkdtemp(prefix='c01s-'); log = []
+    env = {'GIT_CONFIG_NOSYSTEM': '1', 'GIT_AUTHOR_NAME': 'u', 'GIT_AUTHOR_EMAIL': 'u@example.com', 'GIT_COMMITTER_NAME': 'u', 'GIT_COMMITTER_EMAIL': 'u@example.com', 'HOME': base}
+    def git(cwd, *a):
+        e = dict(os.environ); e.update(env); subprocess.run(['git', *a], cwd=cwd, check=True, stdout=subprocess.DEVNULL, stderr=subprocess.DEVNULL, env=e)
+    try:
+        up = os.path.join(base, 'up'); os.makedirs(up); git(up, 'init', '-q', '-b', 'master')
+        with open(os.path.join(up, 'g.txt'), 'w') as f: f.write('git content\n')
+        git(up, 'add', 'g.txt'); git(up, 'commit', '-q', '-m', 'c1')
+        for d, fn in (('imp_core', 'main.c'), ('imp_extras', 'plugin.c')):
+            os.makedirs(os.path.join(base, d)); open(os.path.join(base, d, fn), 'w').write('content of %s\n' % fn)
+        def scm(which, dir_, cond=None):
+            s_ = {'scm': 'import', 'url': os.path.join(base, 'imp_' + which), 'dir': dir_} if which != 'git' else {'scm': 'git', 'url': 'file://' + up, 'branch': 'master', 'dir': dir_}
+            if cond is not None: s_['if'] = cond
+            return s_
+        def model(scms):
+            return {'recipes': {'r0': {'root': True, 'checkoutSCM': scms,
+                                       'buildScript': '(cd "$1" && find . -type f -not -path "*/.git/*" | sort | while read f; do echo "$f"; cat "$f"; done) > out.txt\n',
+                                       'packageScript': 'cp "$1"/out.txt result.txt\n'}}, 'config': {}}
+        states = [('core+extras+git', [scm('core', 'core'), scm('extras', 'extras'), scm('git', 'g')]),
+                  ('extras removed', [scm('core', 'core'), scm('git', 'g')]),
+                  ('extras back in another directory', [scm('core', 'core'), scm('extras', 'more'), scm('git', 'g')]),
+                  ('extras switched off by if', [scm('core', 'core'), scm('extras', 'more', 'false'), scm('git', 'g')]),
+                  ('git removed', [scm('core', 'core')]),
+                  ('git and extras back', [scm('core', 'core'), scm('extras', 'extras'), scm('git', 'g')])]
+        p = P.Project(root=os.path.join(base, 'proj')); p.env.update(env)
+        for i, (what, scms) in enumerate(states):
+            m = model(scms); p.write(m); log.append(what)
+            rc, out = p.bob(mode, 'r0')
+            if rc != 0:
+                if i == 0: return None, ['(project does not build: %s)' % out[-200:].replace('\n', ' ')]
+                return {'kind': 'build-fails-after-scm-set-change', 'mode': mode, 'history': log, 'output': out[-300:]}, log
+            inc = H.dist_contents(p, None)
+            c = P.Project(root=os.path.join(base, 'clean%d' % i)); c.env.update(env); c.write(m)
+            rc2, out2 = c.bob(mode, 'r0')
+            if rc2 != 0: return None, ['(clean build failed)']
+            ref = H.dist_contents(c, None); c.cleanup()
+            for name, dig in ref.items():
+                if inc.get(name) != dig:
+                    return {'kind': kind, 'package': name, 'mode': mode, 'history': log, 'what': 'the set of SCMs of a checkout changed (SCM removed / moved / switched off / added back): stale files stay in the source workspace'}, log
+        return None, log
+    except Exception as ex:
+        return None, ['harness problem: %r' % (ex,)]
+    finally:
+        shutil.rmtree(base, ignore_errors=True)
+
 def replay(rep):
     seed = int(os.environ.get('VERIF_SEED', '0') or 0)
     thorough = os.environ.get('VERIF_TIER') == 'thorough'
     n = 40 if thorough else 12; steps = 5 if thorough else 3
     tried = 0; distinct = set(); samples = []; problems = 0
     with cf.ThreadPoolExecutor(max_workers=8) as ex:
-        futs = [ex.submit(directed_checkout_edits, 'dev'), ex.submit(directed_checkout_edits, 'build')] + [ex.submit(one_history, seed * 1000 + i, steps, 'dev' if i % 3 else 'build') for i in range(n)]
+        futs = [ex.submit(directed_checkout_edits, 'dev'), ex.submit(directed_checkout_edits, 'build'), ex.submit(directed_scm_set_edits, 'dev'), ex.submit(directed_scm_set_edits, 'build')] + [ex.submit(one_history, seed * 1000 + i, steps, 'dev' if i % 3 else 'build') for i in range(n)]
         for f in cf.as_completed(futs):
             w, log = f.result(); tried += 1
             if log and (str(log[-1]).startswith('harness problem') or str(log[-1]).startswith('(project does not') or str(log[-1]).startswith('(clean build')): problems += 1; continue
@@ -86,5 +135,5 @@ def replay(rep):
             if w is not None: return {'reproduced': True, 'tried': tried, 'witness': w}
     if problems > tried // 2: return {'reproduced': None, 'detail': 'harness problems in %d of %d cases' % (problems, tried)}
     return {'reproduced': False, 'tried': tried, 'distinct': len(distinct), 'samples': samples,
-            'bound': '2 directed histories of deterministic-checkout edits (script, checkoutVars value, pinned git tag, revert) + %d generated projects (2-4 recipes), edit histories of %d steps, develop and release mode' % (n, steps),
+            'bound': '2 directed histories of deterministic-checkout edits (script, checkoutVars value, pinned git tag, revert) + 2 directed histories changing the set of SCMs of a checkout (remove, move, if, add back) + %d generated projects (2-4 recipes), edit histories of %d steps, develop and release mode' % (n, steps),
             'detail': 'dist content after every incremental build equals a clean build; repeated builds execute nothing'}
